@@ -863,6 +863,9 @@ def probes(rng, tier):
             ok, detail, wz = check_optimal(f, spec, xflat, rng)
         except Exception as e:   # noqa
             ok, detail, wz = False, 'raised %s: %s' % (type(e).__name__, str(e)[:120]), None
+        if not ok and detail and detail.startswith('f(p) =') and 'IndicatorLpUnitBall' in fcode and ', 1)' in fcode \
+                and key.startswith('opt-'):
+            key = 'indicator-l1-ball-rounding-outside'     # recorded: proj_l1 has no safety margin
         out.append(C.Probe(ok, key, what, optimal_replay(fcode, spec, xflat, wz), detail))
         return ok
 
@@ -973,6 +976,10 @@ def probes(rng, tier):
                 ok = bool(e2['ok'])
             except Exception:
                 ok = False
+            if not ok and kind == 'ball1' and e2.get('observed', {}).get('dist(P(p), p)', 1) <= 1e-9:
+                out.append(C.Probe(False, 'indicator-l1-ball-rounding-outside',
+                                   '%s: f(p) finite' % code, rp))
+                continue
             out.append(C.Probe(ok, 'indicator-idempotent-%s-%s' % (kind, _space_kind(sp.code)),
                                '%s: proximal lands in the set and is idempotent' % code, rp))
     return out
